@@ -373,6 +373,86 @@ def c17(tier):
                       ASSUME_COMMON + ["request sets: default and single task; pairs of tasks are not enumerated in quick"])
 
 
+@reg("C19")
+def c19(tier):
+    from . import groups as G
+    run = P.Run("C19", tier, ["C19_"])
+    s = run.seed
+    # purity of the query: C19_idem on every query step of broad families (first query initialises with-items)
+    defs = F.curated() + F.curated_items() + F.curated_retry() + F.curated_ctx()
+    defs += F.random_family(2800 + s, sizes(tier, 40, 400), nmax=4, publish=True, items=True, retry=True)
+    run.add_jobs(jobs_for(defs, {"pause": 1, "cancel": 1, "sample": sizes(tier, 3, 5), "max_nodes": sizes(tier, 600, 3000)},
+                          s, ("yaql", "jinja"), tok="visit"))
+    run.add_jobs(jobs_for(F.curated() + F.curated_items()[:8], {"rerun": 1, "rerun_tasks": True, "rerun_multi": True, "sample": 3,
+                                                                "max_nodes": sizes(tier, 800, 4000)}, s))
+    run.add_jobs(jobs_for(F.fault_family(("undef", "type")), {"sample": 2, "max_nodes": 300}, s, ("yaql", "jinja")))
+    # determinism across interpreter hash seeds: sampled complete histories replayed in subprocesses
+    seeds = (0, 1, 7) if tier == "quick" else (0, 1, 2, 3, 7, 11, 101, 4242)
+    gs, errs = G.seed_groups(run.results, seeds, sizes(tier, 2, 6), random.Random(s), run.tmp)
+    for e in errs[:3]:
+        run.machinery.append("seed run: " + str(e)[:1500])
+    run.extra["hash_seeds"] = list(seeds)
+    run.add_groups(gs)
+    return run.finish("exploration",
+                      "C19_idem (same answer, same persisted form) at every query of sampled histories over all families; "
+                      "sampled complete histories (incl. multi-request reruns, faulty definitions) replayed in one process "
+                      "per PYTHONHASHSEED and compared step by step (graph, inspection report, persisted form, offers in "
+                      "order, errors, output) by C19_same",
+                      ASSUME_COMMON + ["the hash-seed dimension is realised by processes; TLC is the comparator of digests"])
+
+
+@reg("C20")
+def c20(tier):
+    from . import shorthand as SH
+    run = P.Run("C20", tier, ["C20_"])
+    s = run.seed
+    cases, res = SH.enumerate_cases(run.tmp, max_len=2)
+    run.mc_states += res["distinct"]
+    run.mc_transitions += res["states"]
+    if res["rc"] != 0 or not cases:
+        run.machinery.append("Params tlc rc=%s\n%s" % (res["rc"], res["out"][-2000:]))
+    gs, errs = SH.shorthand_groups(cases, cap=sizes(tier, 700, None), seed=s)
+    for e in errs[:3]:
+        run.machinery.append("shorthand harness: " + e["error"][:1500])
+    run.extra["cases_enumerated"] = len(cases)
+    run.extra["value_classes"] = sorted(SH.CORPUS)
+    for g in gs:                      # keep the group files small: details only in replay files
+        for m in g["members"]:
+            g.setdefault("replay", {}).setdefault("detail", []).append(m["fin"].pop("detail", None))
+    run.add_groups(gs)
+    return run.finish("exploration",
+                      "parameter lists of 1..2 values over 10 value classes (2-3 representatives each) x 3 delimiters x "
+                      "{action, publish}; do as 'a, b' / 'a,b' / single vs list; with as expression / 'x in' / 'x, y in' "
+                      "vs mapping; omitted do vs continue - enumerated by TLC (spec/Params.tla); each shorthand/longhand "
+                      "twin is parsed, composed, inspected and conducted on the real code; C20_same / C20_denote by TLC",
+                      ["the text grammar of the representatives lives in harness/shorthand.py; brackets and bare words are not covered",
+                       "exotic number spellings (.5, 1e5, 007) are not in the corpus (DESIGN.md S12)"])
+
+
+@reg("C16")
+def c16(tier):
+    from . import datapath as DP
+    run = P.Run("C16", tier, ["C16_"])
+    s = run.seed
+    paths, res = DP.enumerate_paths(run.tmp)
+    run.mc_states += res["distinct"]
+    run.mc_transitions += res["states"]
+    if res["rc"] != 0 or not paths:
+        run.machinery.append("DataPath tlc rc=%s\n%s" % (res["rc"], res["out"][-2000:]))
+    vals = DP.values(s, sizes(tier, 260, 3000))
+    gs = DP.datapath_groups(paths, vals, seed=s, per_value=sizes(tier, 3, 8))
+    run.extra["paths_enumerated"] = len(paths)
+    run.extra["values"] = len(vals)
+    run.add_groups(gs)
+    return run.finish("exploration",
+                      "paths (injection stage x 7 reference forms x persist/restore at <= 2 of 9 points) enumerated by "
+                      "TLC; JSON values (special numbers incl. > 64 bit integers, float extremes, -0.0, strings that "
+                      "look like numbers/booleans/null/format directives, unicode, nested containers; seeded random) "
+                      "run through sampled paths on the real code; C16_preserved / C16_pure / C16_hidden by TLC",
+                      ["exploration of the value space; the type-tagged encoder (harness/shorthand.py:tag) is trusted",
+                       "values containing expression delimiters are excluded as the property says"])
+
+
 @reg("conform")
 def conform(tier):
     """Not a property: code -> spec conformance of Spec B over all families (divergences must be 0)."""
